@@ -1,4 +1,5 @@
 #!/bin/bash
+# env: DEMOFLAGS (e.g. -race) for the demo runs, STUB=<pure-Go alsa.go> for demos in cmd/hidi
 # usage: confirm_mutation.sh <worktree> <id> <property>   -- confirms an agent's mutation and stores it under /verif/seeded/<id>
 WT=$1; ID=$2; PROP=$3
 export GOFLAGS=-mod=mod GOPROXY=off GOSUMDB=off GOTOOLCHAIN=local
@@ -20,9 +21,11 @@ for l in sys.stdin:
 base=set(json.load(open('/root/.vp/BASELINE.json'))['stable_pass'])
 print(len(base-p))")
 cp /tmp/demo_$ID.go.txt $DEMO
-go test -vet=off -count=1 -run 'Demo' $PKG > /tmp/demo_with_$ID.log 2>&1; RC_WITH=$?
+[ -n "$STUB" ] && cp $STUB internal/pkg/midi/driver/alsa/alsa.go
+go test $DEMOFLAGS -vet=off -count=1 -run 'Demo' $PKG > /tmp/demo_with_$ID.log 2>&1; RC_WITH=$?
 git apply -R mutation.diff
-go test -vet=off -count=1 -run 'Demo' $PKG > /tmp/demo_without_$ID.log 2>&1; RC_WITHOUT=$?
+go test $DEMOFLAGS -vet=off -count=1 -run 'Demo' $PKG > /tmp/demo_without_$ID.log 2>&1; RC_WITHOUT=$?
+[ -n "$STUB" ] && git checkout internal/pkg/midi/driver/alsa/alsa.go
 git apply mutation.diff
 echo "$ID: baseline tests missing with mutation=$WITH  demo rc with=$RC_WITH without=$RC_WITHOUT  (demo: $DEMO)"
 if [ "$WITH" = "0" ] && [ $RC_WITH -ne 0 ] && [ $RC_WITHOUT -eq 0 ]; then
